@@ -229,8 +229,16 @@ def mode_equivalence(rec, w_first, keep_log=False):
     # compare request by request; a request that ran in only one of the two executions (the other one ended
     # early, e.g. with the documented oversize error on a reopen, because completion order changed which files
     # were evicted) has nothing to be compared with
-    rb_by_id = dict((str(i), r) for i, r in b.results)
-    for ida, ra in a.results:
+    if any(o["op"] == "RES_UPDATE" for o in rec["ops"]):
+        # a remote object changed during the history: the two executions may legitimately serve different
+        # (old, still cached vs. freshly fetched) versions of it, so only the paths can be compared
+        strip = lambda r: [p for p, _h in r] if isinstance(r, list) else r
+        a_results = [(i, strip(r)) for i, r in a.results]
+        b_results = [(i, strip(r)) for i, r in b.results]
+    else:
+        a_results, b_results = a.results, b.results
+    rb_by_id = dict((str(i), r) for i, r in b_results)
+    for ida, ra in a_results:
         if str(ida) not in rb_by_id:
             continue
         idb, rb = ida, rb_by_id[str(ida)]
